@@ -98,31 +98,29 @@ Definition c01_ok (ec : ecase) : bool :=
 Definition engine_violations_c01 (cs : list ecase) : list (N * N) := map (fun i => (i, 0)) (bad_indices c01_ok cs).
 
 (* ---- C08: no panic, consistent session after every request (well-formed applications) ------------- *)
-(* finding classes: 1 = K-C08-restart: a request failed with an error and the next engine
-   started on the stale position (panic "down into same node" or nested restart);
-   2 = K-C08-croak: a CROAK fired (cache reset to one scope, navigation stack kept) *)
+(* finding class 1 = K-C08-croak: the application contains a CROAK (when it fires, the cache is
+   reset to one scope while the navigation stack is kept) *)
 Definition has_croak (a : app) : bool :=
   existsb (fun nc => existsb (fun i => match i with ICroak _ _ => true | _ => false end) (node_instrs a (fst nc))) (a_code a).
 
-Fixpoint c08_steps (c : config) (prev_failed : bool) (steps : list (bytes * eobs)) : N (* 0 ok, 1 viol, 2 viol-after-failure *) :=
+(* 0 ok, 1 a panic, 2 an inconsistent session *)
+Fixpoint c08_steps (c : config) (steps : list (bytes * eobs)) : N :=
   match steps with
   | [] => 0
   | (_, o) :: r =>
-    let bad := step_panicked o
-               || match eo_snap o with
-                  | Some os => negb (snap_cache_ok os && snap_flags_ok c os && snap_levels_ok os)
-                  | None => false
-                  end in
-    if bad then (if prev_failed then 2 else 1)
-    else c08_steps c (prev_failed || negb (is_ok_o (eo_exec o)) && negb (eo_cont o)) r
+    if step_panicked o then 1
+    else match eo_snap o with
+         | Some os => if snap_cache_ok os && snap_flags_ok c os && snap_levels_ok os then c08_steps c r else 2
+         | None => c08_steps c r
+         end
   end.
 Definition c08_class (ec : ecase) : option N :=
   if negb (wf_app_b (ec_app ec) (ec_cfg ec)) then None else
-  let l := c08_steps (ec_cfg ec) false (ec_long ec) in
-  let p := c08_steps (ec_cfg ec) false (ec_pers ec) in
+  let l := c08_steps (ec_cfg ec) (ec_long ec) in
+  let p := c08_steps (ec_cfg ec) (ec_pers ec) in
   if (l =? 0) && (p =? 0) then None
-  else if ((l =? 0) || (l =? 2)) && ((p =? 0) || (p =? 2)) then Some 1
-  else if has_croak (ec_app ec) then Some 2
+  else if (l =? 1) || (p =? 1) then Some 0
+  else if has_croak (ec_app ec) then Some 1
   else Some 0.
 Fixpoint classify {A} (f : A -> option N) (i : N) (l : list A) : list (N * N) :=
   match l with
@@ -142,9 +140,14 @@ Fixpoint c07_steps (l p : list (bytes * eobs)) : bool :=
   end.
 (* class 1 = K-C07-sep: a non-default menu separator is configured (the first menu of a new
    engine is built before the separator is applied) *)
+(* class 2 = K-C07-first: an entry function is configured (it runs once per ENGINE: once in the
+   long-lived engine, on every request in persisted operation) *)
 Definition c07_class (ec : ecase) : option N :=
   if c07_steps (ec_long ec) (ec_pers ec) then None
-  else match c_sep (ec_cfg ec) with [] => Some 0 | _ => Some 1 end.
+  else match c_first (ec_cfg ec) with
+       | Some _ => Some 2
+       | None => match c_sep (ec_cfg ec) with [] => Some 0 | _ => Some 1 end
+       end.
 Definition engine_violations_c07 (cs : list ecase) : list (N * N) := classify c07_class 0 cs.
 
 (* ---- C17: refused input has no effect -------------------------------------------------------------- *)
